@@ -236,6 +236,10 @@ def r3_seeding(ctx, rule):
             if not (isinstance(n.op, ast.Add) and isinstance(const(n.value), int)):
                 ok = False
                 ctx.bad(rule, qual, 'seed update ' + txt, 'the per-word seed must advance by a constant', facts, n)
+            elif const(n.value) == 0 or isinstance(const(n.value), bool):
+                ok = False
+                ctx.bad(rule, qual, 'seed update ' + txt, 'the seed does not advance: every word is drawn with the same seed - the same '
+                        'derivation N times instead of N independent draws', facts, n, firm=True)
             continue
         v = n.value
         if isinstance(const(v), int):
@@ -314,6 +318,54 @@ def _flags_reach_grammar(ctx, rule):
 def _options_forwarded(ctx, rule):
     from . import c14
     return c14.r13_options_forwarded(ctx, rule)
+
+
+def r17_honeyword_recursion_shape(ctx, rule):
+    """_honeyword_recursive_guess writes the word exactly when the last transition has been applied (`len(pt) == 1`) and recurses on
+    pt[1:] otherwise - in every branch of the dispatch.  (Mutation sweep: `len(pt) != 1` printed every proper prefix of a word and
+    never a complete one, silently.)"""
+    fn = ctx.fn(HG)
+    mod = ctx.repo.modules[PGF]
+    ctx.stats['functions'].add(HG)
+    prints = [c for c in calls_in(fn) if call_name(c) == 'self.print_guess']
+    recs = [c for c in calls_in(fn) if call_name(c) == 'self._honeyword_recursive_guess']
+    if not ctx.floor(rule, HG, len(prints), 2, 'writes in the honeyword emitter') or not ctx.floor(rule, HG, len(recs), 2, 'recursive calls in the honeyword emitter'):
+        return
+    ok = True
+
+    def base_pol(c):
+        vals = []
+        for t, pol in path_conditions(mod, c08._stmt_of(mod, c)):
+            tt = U(t).replace(' ', '')
+            if tt in ('len(pt)==1', '1==len(pt)'):
+                vals.append(pol)
+            elif tt in ('len(pt)!=1', 'len(pt)>1', '1!=len(pt)', '1<len(pt)'):
+                vals.append(not pol)
+            elif 'len(pt)' in tt:
+                vals.append(None)
+        return vals
+    for c in prints:
+        v = base_pol(c)
+        if v != [True]:
+            ok = False
+            if v and all(x is not None for x in v):
+                ctx.bad(rule, HG, 'the word is written when len(pt) == 1 is %s' % v, 'the word is complete exactly when the last transition has been applied',
+                        None, c, firm=True)
+            else:
+                ctx.unk(rule, HG, 'the condition under which the honeyword emitter writes is not of a form this rule knows')
+    for c in recs:
+        v = base_pol(c)
+        if v != [False]:
+            ok = False
+            if v and all(x is not None for x in v):
+                ctx.bad(rule, HG, 'the recursion runs when len(pt) == 1 is %s' % v, 'recurse on the rest exactly while transitions remain', None, c, firm=True)
+            else:
+                ctx.unk(rule, HG, 'the condition under which the honeyword emitter recurses is not of a form this rule knows')
+        if len(c.args) >= 2 and U(c.args[1]) != 'pt[1:]':
+            ok = False
+            ctx.bad(rule, HG, 'recursion on ' + U(c.args[1]), 'the recursion continues with the rest of the parse tree pt[1:]', None, c, firm=True)
+    if ok:
+        ctx.ok(rule, HG, '%d writes under len(pt) == 1, %d recursions on pt[1:] otherwise' % (len(prints), len(recs)))
 
 
 def r15_restore_only_in_probability_order_mode(ctx, rule):
@@ -459,7 +511,9 @@ def rules(tier):
             # C16-da: the session restore no longer checks the cracking mode
             ('C16.R15', _shared_rule('c16', 'r15_restore_only_in_probability_order_mode')),
             # mutation sweep: random walk positions seeded at index 1
-            ('C16.R16', _shared_rule('plumbing', 'generator_glue'))]
+            ('C16.R16', _shared_rule('plumbing', 'generator_glue')),
+            # mutation sweep: len(pt) != 1 in the honeyword emitter
+            ('C16.R17', _shared_rule('c16', 'r17_honeyword_recursion_shape'))]
 
 
 META = {
